@@ -309,6 +309,10 @@ func TestCheck(t *testing.T) {
 	rep.Info["max_deviation_bound_completed"] = bound
 	rep.Assume("interleavings at environment-step and vhook-gate granularity; crypto/tls and net/http goroutines run freely between two quiescent states")
 	if rq, ok := ev.ReplayRequest(); ok {
+		if fc, ok := rq["fault_point_case"].(string); ok {
+			faultPoints(t, rep, 0, 1, fc)
+			return
+		}
 		var ms []outcome
 		if names, ok := rq["multiset"].([]any); ok {
 			for _, n := range names {
@@ -331,6 +335,7 @@ func TestCheck(t *testing.T) {
 		}
 		return
 	}
+	faultPoints(t, rep, shard, of, "")
 	idx := 0
 	for a := 0; a < len(os); a++ {
 		for b := a; b < len(os); b++ {
